@@ -23,7 +23,7 @@ def nbrsOf (rows cols i : Nat) : List Nat :=
 /-- bit of the connection between lattice neighbours `a`, `b` (storage rule: at the lesser endpoint) -/
 def edgeBit (rows cols a b : Nat) : Nat :=
   let lo := min a b; let hi := max a b
-  if hi = lo + 1 then rows * cols + lo else lo
+  if lo / cols = hi / cols then rows * cols + lo else lo   -- same row: dim 1, else dim 0
 
 def unvisited (rows cols : Nat) (vis : Nat) : List Nat := (List.range (rows * cols)).filter fun i => !bit vis i
 
